@@ -45,6 +45,7 @@ struct GMGPolarVerif {
     double rho_raw() { return s.mean_residual_reduction_factor_; }
     const SourceTerm& source() { return *s.source_term_; }
     const BoundaryConditions& boundary() { return *s.boundary_conditions_; }
+    std::vector<int>& threads() { return s.threads_per_level_; }
     int chooseLevels(const PolarGrid& g, int max_levels) { s.max_levels_ = max_levels; return s.chooseNumberOfLevels(g); }
 };
 
@@ -835,6 +836,56 @@ static int mode_options(int cases)
     return 0;
 }
 
+// ---------------------------------------------------------------------------------------------- setup
+// what setup() provides (levels, threads per level, operator objects per level, built right-hand sides, smoother switch) and the
+// trace of a following solve(): the driver checks the decision table of GMGModel/Setup.lean and that the real solve touches only
+// what the real setup provided
+static int mode_setup(int cases)
+{
+    Rng rng(seed_from_env());
+    for (int c = 0; c < cases; c++) {
+        Opts o = random_solve_opts(rng, rng.pick(std::vector<int>{3, 4, 4, 5}));
+        o.set("maxLevels", rng.pick(std::vector<int>{-1, -1, 2, 3, 4, 6}));
+        int T = rng.pick(std::vector<int>{1, 2, 4, 7});
+        double fac = rng.pick(std::vector<double>{1.0, 0.5, 0.7, 0.3});
+        o.set("maxOpenMPThreads", T);
+        o.set("threadReductionFactor", fac);
+        o.set("maxIterations", 2);
+        if (o.kv["absoluteTolerance"] == "-1" && o.kv["relativeTolerance"] == "-1") o.set("relativeTolerance", 1e-8);
+        GMGPolar g;
+        o.apply(g);
+        g.setup();
+        GMGPolarVerif v(g);
+        int L = v.levels();
+        std::string thr, ops, built;
+        for (int l = 0; l < L; l++) {
+            Level& lv = v.level(l);
+            int n = lv.grid().numberOfNodes();
+            auto has = [&](auto&& call) { try { call(); return 1; } catch (const std::runtime_error&) { return 0; } };
+            Vector<double> x(n), f(n), t(n);
+            for (int i = 0; i < n; i++) { x[i] = 0.0; f[i] = 0.0; t[i] = 0.0; }
+            int sm = has([&] { lv.smoothing(x, f, t); });
+            int ex = has([&] { lv.extrapolatedSmoothing(x, f, t); });
+            int ds = has([&] { lv.directSolveInPlace(x); });
+            int rs = has([&] { lv.computeResidual(t, f, x); });
+            bool nz = false;
+            for (int i = 0; i < (int)lv.rhs().size(); i++) if (lv.rhs()[i] != 0.0) nz = true; // levels without a right-hand side have an empty vector
+            if (l) { thr += ','; ops += ','; built += ','; }
+            thr += std::to_string(v.threads()[l]);
+            ops += std::to_string(sm) + std::to_string(ex) + std::to_string(ds) + std::to_string(rs);
+            built += nz ? '1' : '0';
+        }
+        int fgs0 = (int)v.fgs();
+        trace_on();
+        g.solve();
+        trace_off();
+        printf("SETUP case=%d levels=%d extrap=%s fmg=%s maxThreads=%d factor=%s threads=%s ops=%s built=%s fgs=%d nr=%d nt=%d opts=[%s] trace=%s\n", c, L, o.kv["extrapolation"].c_str(), o.kv["FMG"].c_str(), T,
+               hex(fac).c_str(), thr.c_str(), ops.c_str(), built.c_str(), fgs0, g.grid().nr(), g.grid().ntheta(), o.str().c_str(), render_trace(v).c_str());
+    }
+    printf("end\n");
+    return 0;
+}
+
 int main(int argc, char** argv)
 {
     std::string mode = argc > 1 ? argv[1] : "";
@@ -848,6 +899,7 @@ int main(int argc, char** argv)
     if (mode == "levels") return mode_levels(a);
     if (mode == "rhs") return mode_rhs(a);
     if (mode == "order") return mode_order(a, b);
+    if (mode == "setup") return mode_setup(a);
     fprintf(stderr, "usage: h_solver cycle|fmg|solve|reuse ...\n");
     return 2;
 }
